@@ -433,6 +433,13 @@ func (f *Frame) stdModel(in ssa.Instruction, callee *ssa.Function, cc *ssa.CallC
 			c.emit(fmt.Sprintf("(declare-fun %s (Str Str) Str)", fn))
 		}
 		return []Term{app(SStr, fn, args[0][0], args[1][0])}, true
+	case "unicode/utf8.ValidString":
+		c.note("assumed", "assumed contract: utf8.ValidString is a function of its argument")
+		if !c.declared["ext_utf8valid"] {
+			c.declared["ext_utf8valid"] = true
+			c.emit("(declare-fun ext_utf8valid (Str) Bool)")
+		}
+		return []Term{app(SBool, "ext_utf8valid", args[0][0])}, true
 	case "strings.EqualFold":
 		c.note("assumed", "assumed contract: strings.EqualFold(s,t) is a reflexive function of its arguments")
 		if !c.declared["ext_equalfold"] {
